@@ -165,7 +165,7 @@ def run(ctx):
     ctx.run_cases('doc', FIXED)
     ctx.run_parallel('shard_random', extra=(ctx.pick(12, 300),))
     if ctx.thorough or os.environ.get('VERIF_FUZZ'):
-        ctx.run_atheris('doc', ctx.pick(200, 2500), guided=True)
+        ctx.run_atheris('doc', ctx.pick(200, 1500), guided=True)
 
 
 # coverage-guided layer (thorough tier): the Hypothesis strategy under libFuzzer (vlib/fuzz.py, guided mode)
